@@ -175,48 +175,42 @@ def getFragmentIdx (f : Bytes) : Int := if fMagic f != magicC then -1 else toI32
 def getPayloadSize (f : Bytes) : Int := if fMagic f != magicC then -1 else toI32 (fSize f)
 def getOrigDataSize (f : Bytes) : Int := if fMagic f != magicC then -1 else toI32 (fOrig f)
 
+/-- one iteration of the scan loop of `fragments_to_string`: validates the fragment and
+    places the first fragment seen for each data index.  State: (orig_data_size or -1, slots). -/
+def f2sStep (k : Nat) (st : Except Int (Int × List (Option Bytes))) (f : Bytes) :
+    Except Int (Int × List (Option Bytes)) :=
+  match st with
+  | .error e => .error e
+  | .ok (orig, slots) =>
+    if getFragmentIdx f < 0 || getPayloadSize f < 0 then .error (-EBADHEADER)
+    else if orig ≥ 0 && getOrigDataSize f != orig then .error (-EBADHEADER)
+    else
+      let orig' := if orig < 0 then getOrigDataSize f else orig
+      if getFragmentIdx f ≥ (k : Int) then .ok (orig', slots)
+      else match slots.getD (getFragmentIdx f).toNat none with
+        | some _ => .ok (orig', slots)
+        | none => .ok (orig', slots.set (getFragmentIdx f).toNat (some f))
+
+/-- the copy loop of `fragments_to_string` over the k data fragments in index order. -/
+def f2sCopy : List Bytes → Nat → Bytes
+  | [], _ => []
+  | f :: fs, remaining =>
+    if remaining = 0 then [] else
+    let fsz := (getPayloadSize f).toNat
+    let n := if remaining > fsz then fsz else remaining
+    let piece := (fPayload f).take n
+    (piece ++ zeros (n - piece.length)) ++ f2sCopy fs (remaining - n)
+
 /-- `fragments_to_string`: the string, or the non-zero return code (-1: not all data
     fragments present; -EBADHEADER: bad index/size or inconsistent original size). -/
 def fragmentsToString (k : Nat) (frags : List Bytes) : Except Int Bytes :=
   if frags.length < k then .error (-1) else
-  -- the scan loop: validates, and places the first fragment seen for each data index
-  let step (st : Except Int (Int × List (Option Bytes))) (f : Bytes) :
-      Except Int (Int × List (Option Bytes)) :=
-    match st with
-    | .error e => .error e
-    | .ok (orig, slots) =>
-      let index := getFragmentIdx f
-      let dsize := getPayloadSize f
-      if index < 0 || dsize < 0 then .error (-EBADHEADER) else
-      let orig? : Option Int :=
-        if orig < 0 then some (getOrigDataSize f)
-        else if getOrigDataSize f != orig then none else some orig
-      match orig? with
-      | none => .error (-EBADHEADER)
-      | some orig' =>
-        if index ≥ (k : Int) then .ok (orig', slots)
-        else
-          let ix := index.toNat
-          match slots.getD ix none with
-          | some _ => .ok (orig', slots)
-          | none => .ok (orig', slots.set ix (some f))
-  match frags.foldl step (.ok (-1, List.replicate k none)) with
+  match frags.foldl (f2sStep k) (.ok (-1, List.replicate k none)) with
   | .error e => .error e
   | .ok (orig, slots) =>
     if slots.any Option.isNone then .error (-1) else
-    let data := slots.filterMap id
-    -- copy loop
-    let total := orig.toNat
-    let rec copy : List Bytes → Nat → Bytes
-      | [], _ => []
-      | f :: fs, remaining =>
-        if remaining = 0 then [] else
-        let fsz := (getPayloadSize f).toNat
-        let n := if remaining > fsz then fsz else remaining
-        let piece := (fPayload f).take n
-        (piece ++ zeros (n - piece.length)) ++ copy fs (remaining - n)
-    let out := copy data total
-    .ok (out ++ zeros (total - out.length))
+    let out := f2sCopy (slots.filterMap id) orig.toNat
+    .ok (out ++ zeros (orig.toNat - out.length))
 
 /-- one iteration of the placement loop of `get_fragment_partition`. -/
 def partitionStep (k m : Nat) (st : Except Int (List (Option Bytes) × List (Option Bytes))) (f : Bytes) :
@@ -264,6 +258,15 @@ def prepareForDecode (k m : Nat) (data parity : List (Option Bytes)) (missing : 
 /-- replace the payload area (everything after the header) of a fragment buffer. -/
 def withPayload (f : Bytes) (p : Bytes) : Bytes := f.take Hdr.size ++ p
 
+/-- after the backend decode: store the payloads back and regenerate the headers of the
+    data fragments that were missing (`init_fragment_header` + `add_fragment_metadata`
+    without checksum). -/
+def regenData (env : Env) (i : Inst) (d dp : List Bytes) (missing : List Nat) (orig bs : Nat) : List Bytes :=
+  (List.zip d dp).zipIdx.map fun ((f, pl), idx) =>
+    if missing.contains idx then
+      addFragmentMetadata env i (setMagic (withPayload f pl) magicC) idx orig bs false
+    else withPayload f pl
+
 /-- `liberasurecode_decode` for a live descriptor and non-NULL pointers. -/
 def decode (env : Env) (be : Backend) (i : Inst) (frags : List Bytes) (fragLen : Nat)
     (force : Bool) : R Bytes :=
@@ -288,12 +291,8 @@ def decode (env : Env) (be : Backend) (i : Inst) (frags : List Bytes) (fragLen :
         if psize < 0 then .error .crash else
         let bs := psize.toNat
         let (dp, pp) ← be.decode (d.map fPayload) (p.map fPayload) missing bs
-        let d' := (List.zip d dp).zipIdx.map fun ((f, pl), idx) =>
-          let f := withPayload f pl
-          if missing.contains idx then addFragmentMetadata env i (setMagic f magicC) idx orig.toNat bs false
-          else f
         let _ := pp
-        match fragmentsToString k d' with
+        match fragmentsToString k (regenData env i d dp missing orig.toNat bs) with
         | .ok out => pure out
         | .error e => .error (.rc e)
 
